@@ -25,7 +25,10 @@ Oracle:
 import hashlib
 import io
 import json
+import os
 import re
+import shutil
+import tempfile
 import urllib.parse
 
 import ZConfig
@@ -187,7 +190,8 @@ def generate(rng, tier, index):
     uni = layout.cut(rng, lines, ncuts=rng.choice([1, 1, 2, 3]), decoys=True)
     variant = rng.choice(["plain", "plain", "plain", "invalid", "invalid",
                           "torn-cut", "missing-fragment", "open-fault",
-                          "define-conflict", "define-repeat"])
+                          "define-conflict", "define-repeat",
+                          "include-twice"])
     plan = {"prop": ID, "schema_xml": xml, "top": uni["top"],
             "variant": variant, "fault": None}
     res = TF.res_texts(uni)
@@ -199,6 +203,20 @@ def generate(rng, tier, index):
             plan["variant"] = "plain"
     elif variant in ("define-conflict", "define-repeat"):
         res = _redefine(rng, uni, res, variant == "define-conflict")
+    elif variant == "include-twice":
+        # the same fragment included again: back to back, or a little later
+        # at the same nesting level (textual inclusion twice)
+        incs = [(u, i) for u, ls in sorted(res.items())
+                for i, t in enumerate(ls) if _INC.match(t)]
+        if incs:
+            u, i = rng.choice(incs)
+            res = {k: list(v) for k, v in res.items()}
+            extra = [res[u][i]]
+            if rng.random() < 0.3:
+                extra.insert(0, "# between the two includes")
+            res[u][i + 1:i + 1] = extra
+        else:
+            plan["variant"] = "plain"
     elif variant == "torn-cut":
         if _torn(rng, uni):
             res = TF.res_texts(uni)
@@ -221,16 +239,71 @@ def generate(rng, tier, index):
     plan["store"] = store
     plan["decoys"] = {u: t for u, t in uni["decoys"].items()
                       if u not in store}
+    # real-file stratum: the same universe written to a scratch directory,
+    # loaded with the current directory somewhere else, where files of the
+    # same RELATIVE names exist
+    plan["realfs"] = (rng.random() < 0.25 and not plan["fault"] and all(
+        u.startswith("file:///sim/") and "%" not in u
+        for u in list(store) + list(plan["decoys"])))
     return plan
 
 
 # ---------------------------------------------------------------------------
 # execution
 
+def _to_real(s, scratch):
+    return s.replace("file:///sim/", "file://" + scratch + "/sim/")
+
+
 def execute(plan):
     out = {"evaluations": 0, "digests": [], "fired": {}, "probes": {},
            "violations": [], "waste": 0, "log": []}
-    store, top, variant = plan["store"], plan["top"], plan["variant"]
+    if not plan.get("realfs"):
+        return _execute(plan, out, plan["store"], plan.get("decoys") or {},
+                        plan["top"], None)
+    scratch = os.path.realpath(tempfile.mkdtemp(prefix="zcsim-c06-"))
+    try:
+        store = {_to_real(u, scratch): _to_real(t, scratch)
+                 for u, t in plan["store"].items()}
+        decoys = {_to_real(u, scratch): t
+                  for u, t in (plan.get("decoys") or {}).items()}
+        missing = _to_real(plan["missing"], scratch) \
+            if plan.get("missing") else None
+        cwd = os.path.join(scratch, "cwd", "a", "b")
+        os.makedirs(cwd)
+        real = {}
+        for u, t in list(decoys.items()) + list(store.items()):
+            if u != missing:
+                real[u[len("file://"):]] = t
+        # files of the same relative names under the current directory
+        for u, t in store.items():
+            for line in t.split("\n"):
+                m = _INC.match(line)
+                if m and "$" not in m.group(1) and ":" not in m.group(1) \
+                        and not m.group(1).startswith("/"):
+                    p = os.path.normpath(os.path.join(cwd, m.group(1)))
+                    if p.startswith(scratch) and p not in real:
+                        real[p] = layout.DECOY_TEXT
+                        decoys["file://" + p] = layout.DECOY_TEXT
+        for p, t in real.items():
+            os.makedirs(os.path.dirname(p), exist_ok=True)
+            with open(p, "w", encoding="utf-8", newline="") as f:
+                f.write(t)
+        p2 = dict(plan)
+        p2["missing"] = missing
+        return _execute(p2, out, store, decoys, _to_real(plan["top"], scratch),
+                        (scratch, cwd), report_plan=plan)
+    finally:
+        try:
+            os.chdir("/")
+        except OSError:
+            pass
+        shutil.rmtree(scratch, ignore_errors=True)
+
+
+def _execute(plan, out, store, decoys_in, top, real, report_plan=None):
+    variant = plan["variant"]
+    report_plan = report_plan or plan
 
     def probe(name, n=1):
         out["probes"][name] = out["probes"].get(name, 0) + n
@@ -239,15 +312,20 @@ def execute(plan):
         out["violations"].append({
             "sig": "C06|%s|%s" % (clause, variant),
             "key": {"clause": clause, "variant": variant},
-            "detail": detail, "plan": plan})
+            "detail": (detail.replace(real[0], "$SCRATCH") if real
+                       else detail),
+            "plan": report_plan})
 
     expected = [top]
     inlined = "".join(x + "\n" for x in inline_text(store, top, expected))
-    cut_store = dict(plan.get("decoys") or {})
+    cut_store = dict(decoys_in)
     cut_store.update(store)
     if plan.get("missing"):
         cut_store.pop(plan["missing"], None)
-    with SimWorld() as w:
+    with SimWorld(realfs=bool(real), scratch=real[0] if real else None) as w:
+        if real:
+            os.chdir(real[1])
+            out["probes"]["realfs-with-cwd-decoys"] = 1
         w.begin_op("load-schema")
         so = ops.schema_outcome(
             lambda: ops.load_schema_text(plan["schema_xml"], SCHEMA_URL))
@@ -277,7 +355,7 @@ def execute(plan):
             # an include line survived inlining although its target exists
             raise RuntimeError("inliner left an include: %r" % inlined)
         if variant in ("plain", "invalid", "define-conflict",
-                       "define-repeat"):
+                       "define-repeat", "include-twice"):
             if oi["ok"] != oc["ok"]:
                 violation("outcome-differs",
                           "inlined text %s but cut layout %s"
@@ -324,7 +402,7 @@ def execute(plan):
                 violation("opens-differ",
                           "rejected cut load opened %r, not a prefix of %r"
                           % (opened, expected))
-        decoys = plan.get("decoys") or {}
+        decoys = decoys_in
         hit = [u for u in opened if u in decoys]
         if hit:
             violation("decoy-opened", "decoy %r was opened" % hit)
@@ -340,8 +418,9 @@ def execute(plan):
             probe("define-repeated-across-boundary-accepted")
         if len(opened) > 1:
             h = hashlib.sha256(json.dumps(
-                [plan["schema_xml"], store, variant, plan.get("missing"),
-                 plan.get("fault")], sort_keys=True).encode())
+                [plan["schema_xml"], report_plan["store"], variant,
+                 report_plan.get("missing"), plan.get("fault"),
+                 bool(real)], sort_keys=True).encode())
             out["digests"].append(h.hexdigest()[:16])
             probe("fragments-opened", len(opened) - 1)
             if any(u.startswith("http:") for u in opened[1:]):
